@@ -192,7 +192,7 @@ pub fn strategy() -> BoxedStrategy<Case> {
                     end: EndHow::Drop,
                 });
             }
-            Case { cfg: Cfg { rx, tx: 4096, ..Cfg::default() }, broker: mode, conns }
+            Case { cfg: Cfg { rx, tx: 4096, unconditional_limits: true, ..Cfg::default() }, broker: mode, conns }
         })
         .boxed()
 }
